@@ -29,6 +29,7 @@ RULE = (
     "per pair are also sent as the root field of a subscription, where the source generator and the per-event resolver must both "
     "receive that dictionary. SDL split and post-request in-place modification of delivered dictionaries as in C04. "
     "Distinct = SHA-1 of (type, value, ways); non-trivial = delivered by >= 2 different ways and the type is not a bare built-in scalar."
+    " Way nested_unset_var: a nullable variable left unset at an input-object field of the literal (expected dictionary from the reference)."
 )
 ASSUMPTIONS = c04.ASSUMPTIONS + ["SDL-side default values use no block strings (tartiflette's SDL parser keeps block strings raw; see DESIGN)"]
 
@@ -124,6 +125,18 @@ def make_request(c, schema, i, t, v, other=None):
         vars_.append({"name": vn, "type": ty_str(vt)})
         provided[vn] = literal_to_json(schema, pt, sub)
         field("nested%d" % k, e, [["a", replace_at(v, path, ["var", vn])]]); ways["nested%d" % k] = "same"
+    # a nullable variable the request leaves unset, at an input-object field: the field then counts as omitted (its default
+    # applies, or the key is absent); what the resolver gets is taken from the reference
+    for k, (path, pt, sub) in enumerate(subs[:8]):
+        if pt[0] != "NN" and len(path) >= 3 and path[-1] == 1 and isinstance(path[-2], int) and path[-3] == 1:
+            holder = v
+            for step in path[:-3]:
+                holder = holder[step]
+            if holder[0] == "obj":
+                vn = "un%d" % k
+                vars_.append({"name": vn, "type": ty_str(pt)})
+                field("nested_unset_var", e, [["a", replace_at(v, path, ["var", vn])]]); ways["nested_unset_var"] = "ref"
+                break
     # a nullable variable with a default is legal at a nested non-null position; a run-time null must fail the field
     for k, (path, pt, sub) in enumerate(subs[:8]):
         if pt[0] == "NN" and sub[0] != "null":
@@ -201,7 +214,7 @@ def check(spec, h=None):
     qf = schema["types"]["Query"]["fields"]
     for s in op["sels"]:
         alias, way = s["alias"], spec["ways"][s["alias"]]
-        if way in ("same", "absent", "null", "field_error"):
+        if way in ("same", "absent", "null", "field_error", "ref"):
             try:
                 exp = coerce_argument_values(schema, qf[s["name"]]["args"], s["args"], values)
                 failed = False
